@@ -102,6 +102,8 @@ var c01Exemplars = []struct {
 		"main.thrift": "namespace go kf.fslim\nstruct P { 1: i32 x }\nservice S { P f(1: P p) }\n"}},
 	{"fastgo-with-raw_struct-template", "fastgo", []string{"template=raw_struct"}, map[string]string{
 		"main.thrift": "namespace go kf.fraw\nstruct P { 1: i32 x }\nservice S { P f(1: P p) }\n"}},
+	{"fastgo-with-value_type_in_container", "fastgo", []string{"value_type_in_container"}, map[string]string{
+		"main.thrift": "namespace go kf.fvt\nstruct P { 1: i32 x }\nstruct Q { 1: list<P> l, 2: map<string, P> m }\n"}},
 	{"throws-field-named-success", "go", nil, map[string]string{
 		"main.thrift": "namespace go kf.succ\nexception E { 1: string m }\nservice S { i32 f() throws (1: E success) }\n"}},
 	{"underscore-field-in-foreign-struct-literal", "go", nil, map[string]string{
@@ -229,7 +231,7 @@ func C01(r *vlib.Run) {
 				fo.SameNS = false
 				var fopts []string
 				for _, o := range opts {
-					if !strings.HasPrefix(o, "template=") && o != "no_default_serdes" { // known findings: fastgo needs the default templates
+					if !strings.HasPrefix(o, "template=") && o != "no_default_serdes" && o != "value_type_in_container" { // known findings: fastgo needs the default templates and pointer elements
 						fopts = append(fopts, o)
 					}
 				}
